@@ -11,7 +11,8 @@
  *   SHAPE 0  R                      4  R -> {A, B}
  *         1  R -> A                 5  R -> A -> {B, C}
  *         2  R -> A -> B            6  R -> {A -> C, B}
- *         3  R -> A -> B -> C
+ *         3  R -> A -> B -> C       7  R -> {A, B, C}
+ *                                   8  R -> {A, B, C, D}
  */
 #ifndef C06_TREE_H
 #define C06_TREE_H
@@ -55,6 +56,14 @@ static const int g_parent[4] = { -1, 0, 1, 1 };
 #define SHAPE_DEPTH 2
 #define NNODES 4
 static const int g_parent[4] = { -1, 0, 0, 1 };
+#elif SHAPE == 7
+#define SHAPE_DEPTH 1
+#define NNODES 4
+static const int g_parent[4] = { -1, 0, 0, 0 };
+#elif SHAPE == 8
+#define SHAPE_DEPTH 1
+#define NNODES 5
+static const int g_parent[5] = { -1, 0, 0, 0, 0 };
 #else
 #error "unknown SHAPE"
 #endif
@@ -69,10 +78,20 @@ struct tinode {
 	sqfs_u32 extra[1]; /* symlink target: up to 3 bytes + NUL */
 };
 
-static struct tnode g_nodes[NNODES];
-static struct tinode g_inodes[NNODES];
+/* One static object per node, reached through a constant pointer table:
+ * cbmc 6.11 mis-reads bytes through a char pointer into an ARRAY of these
+ * wrappers when both the element index and the offset are symbolic (the
+ * flexible array member inside the element confuses the byte extraction);
+ * with separate objects the dereference is a case split over objects and is
+ * exact. */
+static struct tnode g_n0, g_n1, g_n2, g_n3, g_n4;
+static struct tinode g_i0, g_i1, g_i2, g_i3, g_i4;
+static struct tnode *const g_np[5] = { &g_n0, &g_n1, &g_n2, &g_n3, &g_n4 };
+static struct tinode *const g_ip[5] = { &g_i0, &g_i1, &g_i2, &g_i3, &g_i4 };
 
-#define NODE(k) (&g_nodes[k].n)
+#define TN(k) (g_np[k])
+#define TI(k) (g_ip[k])
+#define NODE(k) (&g_np[k]->n)
 
 static int node_depth(int k)
 {
@@ -102,12 +121,12 @@ static void build_tree(void)
 	int k, j;
 
 	for (k = 0; k < NNODES; ++k) {
-		sqfs_inode_generic_t *ino = &g_inodes[k].i;
+		sqfs_inode_generic_t *ino = &TI(k)->i;
 		sqfs_tree_node_t *n = NODE(k);
 		sqfs_tree_node_t **tail;
 
-		verif_nd_bytes(g_nodes[k].name, NAMELEN, "name");
-		g_nodes[k].name[NAMELEN] = '\0';
+		verif_nd_bytes(TN(k)->name, NAMELEN, "name");
+		TN(k)->name[NAMELEN] = '\0';
 
 		ino->base.type = verif_nd_u16("type");
 		ino->base.mode = verif_nd_u16("mode");
@@ -115,13 +134,13 @@ static void build_tree(void)
 		ino->base.gid_idx = verif_nd_u16("gid_idx");
 		ino->base.mod_time = verif_nd_u32("mtime");
 		ino->base.inode_number = verif_nd_u32("ino");
-		ino->payload_bytes_available = sizeof(g_inodes[k].extra);
-		ino->payload_bytes_used = sizeof(g_inodes[k].extra);
+		ino->payload_bytes_available = sizeof(TI(k)->extra);
+		ino->payload_bytes_used = sizeof(TI(k)->extra);
 		ino->data.dev_ext.nlink = verif_nd_u32("w0");
 		ino->data.dev_ext.devno = verif_nd_u32("w1");
 		ino->data.dev_ext.xattr_idx = verif_nd_u32("w2");
-		verif_nd_bytes(g_inodes[k].extra, 3, "target");
-		((sqfs_u8 *)g_inodes[k].extra)[3] = '\0';
+		verif_nd_bytes(TI(k)->extra, 3, "target");
+		((sqfs_u8 *)TI(k)->extra)[3] = '\0';
 
 		n->inode = ino;
 		n->uid = verif_nd_u32("uid");
